@@ -21,6 +21,9 @@ def ref_dtw(case, inner):
     if inner == "sq":
         pen = pen * pen
     p1b, p1e, p2b, p2e = dc.psi_tuple(case.get("psi"))
+    ms = case.get("max_step")
+    if ms is not None:
+        ms = float(ms) ** 2 if inner == "sq" else float(ms)
     D = np.full((r + 1, c + 1), math.inf)
     D[0, :p2b + 1] = 0
     D[:p1b + 1, 0] = 0
@@ -31,6 +34,8 @@ def ref_dtw(case, inner):
             d = float(np.sum((a[i] - b[j]) ** 2))
             if inner == "abs":
                 d = math.sqrt(d)
+            if ms is not None and d > ms:
+                continue
             D[i + 1, j + 1] = d + min(D[i, j], D[i, j + 1] + pen, D[i + 1, j] + pen)
     best = min(min(D[r, c - p2e:c + 1]), min(D[r - p1e:r + 1, c]))
     return math.sqrt(best) if inner == "sq" else best
@@ -58,7 +63,8 @@ def run(ctx):
         if c.get("window") is not None and c["window"] < 1:
             continue
         if c["inner"] == "abs":
-            c["max_step"] = None
+            # half-integer bounds never coincide with a point distance sqrt(integer): no tie at the threshold
+            c["max_step"] = rng.choice([None, None, 1.5, 2.5, 3.5]) if nd > 1 else None
         if k % 3 == 1 and (not c.get("penalty") or dc.npoints(c)[0] == dc.npoints(c)[1]) and not c.get("max_step") \
                 and c["inner"] == "sq":
             c["use_pruning"] = True
